@@ -21,6 +21,41 @@ thread_local! {
     static IS_WORKER: Cell<bool> = const { Cell::new(false) };
 }
 
+thread_local! {
+    /// Some(step index) when the driver wants operation-window markers for the supervisor.
+    static WIN_STEP: Cell<Option<usize>> = const { Cell::new(None) };
+    static WIN_OPEN: Cell<bool> = const { Cell::new(false) };
+}
+
+fn marker(s: &str) {
+    // a write to a descriptor that is never open: fails with EBADF, visible to ptrace
+    unsafe {
+        libc::write(1023, s.as_ptr() as *const libc::c_void, s.len());
+    }
+}
+
+/// Enables (Some(i)) or disables (None) window markers for the next step on this thread.
+pub fn set_window_markers(step: Option<usize>) {
+    WIN_STEP.with(|w| w.set(step));
+}
+
+/// Opens the operation window: from here on the supervisor gates system calls.
+fn win_begin() {
+    if let Some(i) = WIN_STEP.with(|w| w.get()) {
+        if !WIN_OPEN.with(|o| o.replace(true)) {
+            marker(&format!("CVH:BEGIN:{i}"));
+        }
+    }
+}
+
+fn win_end() {
+    if let Some(i) = WIN_STEP.with(|w| w.get()) {
+        if WIN_OPEN.with(|o| o.replace(false)) {
+            marker(&format!("CVH:END:{i}"));
+        }
+    }
+}
+
 pub fn mark_worker_thread() {
     IS_WORKER.with(|w| w.set(true));
 }
@@ -552,6 +587,7 @@ fn do_sync(ctx: &Ctx, op: &Op) -> Out {
         Op::List | Op::IdxLs => list_out(cache),
         Op::Extract { kind, checked, by, dest } => {
             let to = prep_dest(ctx, *dest);
+            win_begin();
             let r: cacache::Result<Option<u64>> = match (kind, checked, by) {
                 (XKind::Copy, true, By::Key(k)) => cacache::copy_sync(cache, ctx.key(*k), &to).map(Some),
                 (XKind::Copy, true, By::Addr(a)) => cacache::copy_hash_sync(cache, &ctx.integrity_of(*a), &to).map(Some),
@@ -580,6 +616,7 @@ fn do_sync(ctx: &Ctx, op: &Op) -> Out {
                     cacache::reflink_hash_unchecked_sync(cache, &ctx.integrity_of(*a), &to).map(|_| None)
                 }
             };
+            win_end();
             extract_result(r, &to)
         }
         Op::Remove { key } => unit(cacache::remove_sync(cache, ctx.key(*key))),
@@ -651,6 +688,7 @@ async fn do_async(ctx: &Ctx<'_>, op: &Op) -> Out {
                 return do_sync(ctx, op);
             }
             let to = prep_dest(ctx, *dest);
+            win_begin();
             let r: cacache::Result<Option<u64>> = match (kind, checked, by) {
                 (XKind::Copy, true, By::Key(k)) => cacache::copy(cache, ctx.key(*k), &to).await.map(Some),
                 (XKind::Copy, true, By::Addr(a)) => cacache::copy_hash(cache, &ctx.integrity_of(*a), &to).await.map(Some),
@@ -668,6 +706,7 @@ async fn do_async(ctx: &Ctx<'_>, op: &Op) -> Out {
                 }
                 _ => unreachable!(),
             };
+            win_end();
             extract_result(r, &to)
         }
         Op::Remove { key } => unit(cacache::remove(cache, ctx.key(*key)).await),
@@ -821,9 +860,11 @@ pub fn do_harness_side(ctx: &Ctx, op: &Op) -> Out {
                 metadata: reffmt::Json::Null,
                 raw_metadata: None,
             };
-            std::fs::create_dir_all(p.parent().unwrap()).unwrap();
-            let mut f = std::fs::OpenOptions::new().create(true).append(true).open(&p).unwrap();
-            f.write_all(&reffmt::encode_record(&rec, reffmt::EmitStyle { ascii: false, reversed: false })).unwrap();
+            // on an unusable cache root (a file, for instance) there is nothing to plant
+            let _ = std::fs::create_dir_all(p.parent().unwrap());
+            if let Ok(mut f) = std::fs::OpenOptions::new().create(true).append(true).open(&p) {
+                let _ = f.write_all(&reffmt::encode_record(&rec, reffmt::EmitStyle { ascii: false, reversed: false }));
+            }
             Out::Done
         }
         _ => unreachable!(),
@@ -846,14 +887,25 @@ pub fn run_step(ctx: &Ctx, step: &Step) -> StepResult {
     if let Op::LinkTo(l) = &step.op {
         // the target file is (re)created by the harness before linking
         let p = ctx.target_path(l.target);
-        std::fs::write(&p, &ctx.blob(l.blob)[..]).expect("write link target");
+        // leave an already correct target alone so that callers can tell whether the
+        // library touched it
+        if std::fs::read(&p).map(|b| b != ctx.blob(l.blob)[..]).unwrap_or(true) {
+            std::fs::write(&p, &ctx.blob(l.blob)[..]).expect("write link target");
+        }
     }
     MY_PANICS.with(|p| p.borrow_mut().clear());
+    // extraction prepares / observes its destination itself and opens the window around the
+    // library call only; everything else is library calls from start to end
+    let auto_window = !matches!(step.op, Op::Extract { .. });
     let t0 = now_ms();
+    if auto_window {
+        win_begin();
+    }
     let r = std::panic::catch_unwind(std::panic::AssertUnwindSafe(|| match step.fl {
         Fl::Sync => do_sync(ctx, &step.op),
         Fl::Async => rt::block_on(do_async(ctx, &step.op)),
     }));
+    win_end();
     let t1 = now_ms();
     let out = match r {
         Ok(o) => o,
